@@ -141,6 +141,23 @@ theorem T_order_eq (n : Nat) (l r : P) (hl : litParsed l = true) (hr : litParsed
       qOfTag? l r t = some (mkEq l r) :=
   pushCompareEQ_agrees n l r hl hr stk
 
+/-- The statement of `T_order_eq` without the hypothesis on the literals. It is FALSE, and the reason is
+    the model, not the code: `Build.litTyOfVal` is total (a `json.Number` literal would get the numeric
+    validator, any other value the nil validator) while the Go type switch has cases for float64, bool,
+    string, nil only and pushes nothing otherwise. No such literal can be parsed (`litParsed`), so
+    `T_order_eq` is the strongest true statement. Witness: `@ == <json.Number 0>`. -/
+def T_order_eq_full : Prop :=
+  ∀ (n : Nat) (l r : P) (stk : Stack),
+    ∃ t, pushCompareEQ (n + 3) (opndOfP .fst l) (opndOfP .snd r) stk = .ok (t :: stk) ∧
+      qOfTag? l r t = some (mkEq l r)
+
+theorem T_order_eq_full_false : ¬ T_order_eq_full := by
+  intro h
+  obtain ⟨t, h1, _⟩ := h 0 (.pcur []) (.lit (.jnum 0)) []
+  have h2 : pushCompareEQ 3 (opndOfP .fst (.pcur [])) (opndOfP .snd (.lit (.jnum 0))) [] = .ok [] := rfl
+  rw [h2] at h1
+  cases h1
+
 /-- **`!=`** is `.not (mkEq …)`. -/
 theorem T_order_ne (n : Nat) (l r : P) (hl : litParsed l = true) (hr : litParsed r = true) (stk : Stack) :
     ∃ t, pushCompareNE (n + 3) (opndOfP .fst l) (opndOfP .snd r) stk = .ok (t :: stk) ∧
@@ -175,19 +192,21 @@ example : pushCompareNE 3 ⟨.currentRoot, false, .fst⟩ ⟨.literal .other, tr
 
 end
 
-/-! ## 4. extracted facts (T2) -/
+/-! ## 4. extracted facts (T2)
+`rfl` is the fast path (both sides unfold to the same literal); when the tables differ it fails and
+`decide` reports that the equation is false. -/
 
-theorem facts_writes : Gen.Facts.writes = Expect.writes := by decide
-theorem facts_pkgVarAssign : Gen.Facts.pkgVarAssign = Expect.pkgVarAssign := by decide
-theorem facts_returns : Gen.Facts.returns = Expect.returns := by decide
-theorem facts_filterInput : Gen.Facts.filterInput = Expect.filterInput := by decide
-theorem facts_pool : Gen.Facts.pool = Expect.pool := by decide
-theorem facts_parseWrapper : Gen.Facts.parseWrapper = Expect.parseWrapper := by decide
-theorem facts_parserRefs : Gen.Facts.parserRefs = Expect.parserRefs := by decide
-theorem facts_panics : Gen.Facts.panics = Expect.panics := by decide
-theorem facts_assertions : Gen.Facts.assertions = Expect.assertions := by decide
-theorem facts_index0 : Gen.Facts.index0 = Expect.index0 := by decide
-theorem facts_pkgVars : Gen.Facts.pkgVars = Expect.pkgVars := by decide
+theorem facts_writes : Gen.Facts.writes = Expect.writes := by first | rfl | decide
+theorem facts_pkgVarAssign : Gen.Facts.pkgVarAssign = Expect.pkgVarAssign := by first | rfl | decide
+theorem facts_returns : Gen.Facts.returns = Expect.returns := by first | rfl | decide
+theorem facts_filterInput : Gen.Facts.filterInput = Expect.filterInput := by first | rfl | decide
+theorem facts_pool : Gen.Facts.pool = Expect.pool := by first | rfl | decide
+theorem facts_parseWrapper : Gen.Facts.parseWrapper = Expect.parseWrapper := by first | rfl | decide
+theorem facts_parserRefs : Gen.Facts.parserRefs = Expect.parserRefs := by first | rfl | decide
+theorem facts_panics : Gen.Facts.panics = Expect.panics := by first | rfl | decide
+theorem facts_assertions : Gen.Facts.assertions = Expect.assertions := by first | rfl | decide
+theorem facts_index0 : Gen.Facts.index0 = Expect.index0 := by first | rfl | decide
+theorem facts_pkgVars : Gen.Facts.pkgVars = Expect.pkgVars := by first | rfl | decide
 
 /-! Readable consequences, each checked directly on the regenerated tables (so a harmless change of an
 unrelated row does not disturb them). -/
@@ -259,4 +278,4 @@ theorem fact_pool_container :
 end Ties
 end JPV
 
--- OBLIGATIONS: JPV.Ties.T_validator_table JPV.Ties.T_validator_cell JPV.Ties.T_validator_list JPV.Ties.T_validator_any JPV.Ties.T_comparator_embeds JPV.Ties.T_comparator_validator JPV.Ties.T_comparator_valStep JPV.Ties.T_comparator_skip JPV.Ties.T_comparator_test JPV.Ties.T_comparator_loop JPV.Ties.T_order_procedures JPV.Ties.T_order_terminates JPV.Ties.T_order_no_looping_pair JPV.Ties.T_order_pushes_one JPV.Ties.T_order_eq JPV.Ties.T_order_ne JPV.Ties.T_order_ord JPV.Ties.T_order_eq_other_literal JPV.Ties.facts_writes JPV.Ties.facts_pkgVarAssign JPV.Ties.facts_returns JPV.Ties.facts_filterInput JPV.Ties.facts_pool JPV.Ties.facts_parseWrapper JPV.Ties.facts_parserRefs JPV.Ties.facts_panics JPV.Ties.facts_assertions JPV.Ties.facts_index0 JPV.Ties.facts_pkgVars JPV.Ties.fact_no_method_returns_its_input JPV.Ties.fact_compare_query_returns JPV.Ties.fact_filter_input JPV.Ties.fact_markers_never_written JPV.Ties.fact_param_index_writes JPV.Ties.fact_parse_wrapper JPV.Ties.fact_panics_documented JPV.Ties.fact_pool_container
+-- OBLIGATIONS: JPV.Ties.T_validator_table JPV.Ties.T_validator_cell JPV.Ties.T_validator_list JPV.Ties.T_validator_any JPV.Ties.T_comparator_embeds JPV.Ties.T_comparator_validator JPV.Ties.T_comparator_valStep JPV.Ties.T_comparator_skip JPV.Ties.T_comparator_test JPV.Ties.T_comparator_loop JPV.Ties.T_order_procedures JPV.Ties.T_order_terminates JPV.Ties.T_order_no_looping_pair JPV.Ties.T_order_pushes_one JPV.Ties.T_order_eq JPV.Ties.T_order_eq_full_false JPV.Ties.T_order_ne JPV.Ties.T_order_ord JPV.Ties.T_order_eq_other_literal JPV.Ties.facts_writes JPV.Ties.facts_pkgVarAssign JPV.Ties.facts_returns JPV.Ties.facts_filterInput JPV.Ties.facts_pool JPV.Ties.facts_parseWrapper JPV.Ties.facts_parserRefs JPV.Ties.facts_panics JPV.Ties.facts_assertions JPV.Ties.facts_index0 JPV.Ties.facts_pkgVars JPV.Ties.fact_no_method_returns_its_input JPV.Ties.fact_compare_query_returns JPV.Ties.fact_filter_input JPV.Ties.fact_markers_never_written JPV.Ties.fact_param_index_writes JPV.Ties.fact_parse_wrapper JPV.Ties.fact_panics_documented JPV.Ties.fact_pool_container
